@@ -350,6 +350,95 @@ def scaled_adjuster(utils, mn, mx, mp):
     return Patch()
 
 
+def _ranges_of_parts(parts, size):
+    """[(offset, length)] -> the Range-header notation of the model ('s:e', last open-ended)."""
+    items = []
+    for k, (off, ln) in enumerate(parts):
+        last = k == len(parts) - 1 and off + ln == size
+        items.append(f'{hx(off)}:-' if last else f'{hx(off)}:{hx(off + ln - 1)}')
+    return ','.join(items)
+
+
+def other_front_ends(size, chunk, thr, data, tmpdir):
+    """(front-end name, plan string) for the legacy uploader / downloader and the
+    process-pool submitter on one (size, chunk, threshold)."""
+    from harness.fakes3 import FakeS3
+    import s3transfer
+    from s3transfer import processpool
+    from harness.props.c02 import _Monitor, _Queue
+    out = []
+    src = os.path.join(tmpdir, 'lsrc')
+    open(src, 'wb').write(data)
+    # legacy upload_file
+    try:
+        c = FakeS3()
+        t = s3transfer.S3Transfer(c, s3transfer.TransferConfig(multipart_threshold=thr, multipart_chunksize=chunk,
+                                                               max_concurrency=1))
+        t.upload_file(src, 'b', 'k')
+        if c.calls('PutObject'):
+            got = '0'
+        else:
+            parts, off = [], 0
+            for r in sorted(c.calls('UploadPart'), key=lambda r: r['kwargs']['PartNumber']):
+                parts.append((off, r['body_len']))
+                off += r['body_len']
+            pns = [r['kwargs']['PartNumber'] for r in sorted(c.calls('UploadPart'), key=lambda r: r['kwargs']['PartNumber'])]
+            got = _ranges_of_parts(parts, size) if pns == list(range(1, len(pns) + 1)) else f'partnumbers:{pns}'
+        if c.objects.get(('b', 'k')) != data:
+            got += '!bytes'
+    except Exception as e:      # noqa: a crash is a disagreement with the model, reported with the case
+        got = f'crash:{type(e).__name__}'
+    out.append(('legacy-upload', got))
+    # legacy download_file
+    try:
+        c = FakeS3()
+        c.objects[('b', 'k')] = data
+        t = s3transfer.S3Transfer(c, s3transfer.TransferConfig(multipart_threshold=thr, multipart_chunksize=chunk,
+                                                               max_concurrency=1))
+        dst = os.path.join(tmpdir, 'ldst')
+        t.download_file('b', 'k', dst)
+        gets = [r['kwargs'].get('Range') for r in c.calls('GetObject')]
+        if size >= thr:
+            got = '0' if gets == [None] else ','.join(sorted((parse_range_header(r) for r in gets if r is not None),
+                                                             key=lambda x: unhx(x.split(':')[0])))
+        else:
+            got = '0' if gets == [None] else f'ranged:{gets}'
+        if open(dst, 'rb').read() != data:
+            got += '!bytes'
+    except Exception as e:      # noqa
+        got = f'crash:{type(e).__name__}'
+    out.append(('legacy-download', got))
+    # process-pool submitter (allocate(0) is refused: the pool cannot fetch an empty object)
+    if size > 0:
+        try:
+            from s3transfer.utils import OSUtils
+            c = FakeS3()
+            c.objects[('b', 'k')] = data
+            q = _Queue()
+            sub = processpool.GetObjectSubmitter(
+                transfer_config=processpool.ProcessTransferConfig(multipart_threshold=thr, multipart_chunksize=chunk),
+                client_factory=None, transfer_monitor=_Monitor(), osutil=OSUtils(), download_request_queue=None, worker_queue=q)
+            sub._client = c
+            sub._submit_get_object_jobs(processpool.DownloadFileRequest(
+                transfer_id=1, bucket='b', key='k', filename=os.path.join(tmpdir, 'pdst'), extra_args={}, expected_size=size))
+            rngs = [j.extra_args.get('Range') for j in q.items]
+            offs = [j.offset for j in q.items]
+            if size >= thr:
+                got = '0' if rngs == [None] else ','.join(parse_range_header(r) for r in rngs if r is not None)
+                starts = [unhx(x.split(':')[0]) for x in got.split(',')] if got != '0' else []
+                if starts != offs and got != '0':
+                    got += f'!offsets:{offs}'
+            else:
+                got = '0' if rngs == [None] else f'ranged:{rngs}'
+            for f in os.listdir(tmpdir):
+                if f.startswith('pdst'):
+                    os.remove(os.path.join(tmpdir, f))
+        except Exception as e:  # noqa
+            got = f'crash:{type(e).__name__}'
+        out.append(('pool-download', got))
+    return out
+
+
 def end_to_end(ctx):
     from harness.fakes3 import FakeS3, NonSeekableReader
     from s3transfer.manager import TransferManager, TransferConfig
@@ -393,10 +482,14 @@ def end_to_end(ctx):
                 # upload from a path
                 path = os.path.join(tmpdir, 'src')
                 open(path, 'wb').write(data)
-                for src_kind in ('path', 'seekable', 'nonseekable'):
+                for src_kind in ('path', 'seekable', 'seekable@3', 'nonseekable'):
                     c = FakeS3()
                     src = path if src_kind == 'path' else (
                         io.BytesIO(data) if src_kind == 'seekable' else NonSeekableReader(data))
+                    if src_kind == 'seekable@3':
+                        # a seekable stream positioned past byte 0: its size is what is left
+                        src = io.BytesIO(b'XYZ' + data)
+                        src.seek(3)
                     with TransferManager(c, cfg, executor_cls=NonThreadedExecutor) as m:
                         m.upload(src, 'b', 'k').result()
                     parts = [(r['kwargs']['PartNumber'], r['body_len']) for r in c.calls('UploadPart')]
@@ -440,6 +533,11 @@ def end_to_end(ctx):
                     ctx.report(f'e2e-bytes:copy:{size}:{chunk}:{thr}',
                                f'copy of {size} bytes (chunk {chunk}, threshold {thr}) stored different bytes',
                                {'kind': 'input', 'component': 'e2e-copy', 'case': cases[-1]})
+                # the other front-ends that plan parts: legacy S3Transfer and the process-pool submitter
+                for fe, got in other_front_ends(size, chunk, thr, data, tmpdir):
+                    lines.append(f'dl {hx(size)} {hx(chunk)}' if size >= thr else f'mp {hx(size)} {hx(thr)}')
+                    outs.append(got)
+                    cases.append({'kind': fe, 'size': size, 'chunk': chunk, 'thr': thr})
     finally:
         import shutil
         shutil.rmtree(tmpdir, ignore_errors=True)
